@@ -82,6 +82,10 @@ func (s *Shared) VerifStreamOf(address PhysicalAddress) Process {
 	return nil
 }
 
+// VerifDetach detaches the open stream of the peer the way Shared.Close does for every stream
+// (table entry removed, stream process terminated, Farewell, Close).
+func (s *Shared) VerifDetach(address PhysicalAddress) { s.detachStream(address) }
+
 // VerifState reads the sharing state (0 closed, 1 sharing, 2 shared, 3 closing, 4 dead).
 func (s *Shared) VerifState() uint32 { return s.state.Load() }
 
